@@ -53,14 +53,25 @@ def main():
     meta = {"property": prop, "name": name, "confirmed_at": time.strftime("%Y-%m-%d %H:%M:%S")}
     ran = []
     # (0) patch applies to /repo HEAD == what is in the worktree
-    rc, diff = sh("git -C %s diff" % wt)
     dest = os.path.join(VERIF, "seeded", name)
     os.makedirs(dest, exist_ok=True)
-    with open(os.path.join(dest, "patch.diff"), "w") as f:
-        f.write(diff)
-    rc, o = sh("git -C /repo apply --check %s" % os.path.join(dest, "patch.diff"))
+    if os.path.isdir(wt):
+        rc, diff = sh("git -C %s diff" % wt)
+        with open(os.path.join(dest, "patch.diff"), "w") as f:
+            f.write(diff)
+        if not keep:
+            sh("git -C /repo worktree remove --force %s" % wt)
+            shutil.rmtree(wt, ignore_errors=True)
+    # everything below runs in a fresh worktree of /repo's current HEAD + the patch
+    wt = "/tmp/seedrun_%s_%d" % (name, os.getpid())
+    sh("git -C /repo worktree prune")
+    rc, o = sh("git -C /repo worktree add -f %s HEAD" % wt)
+    rc, o = sh("git -C %s apply %s" % (wt, os.path.join(dest, "patch.diff")))
     meta["applies_to_repo_head"] = rc == 0
-    ran.append("git -C /repo apply --check patch.diff -> rc %d" % rc)
+    meta["repo_head"] = sh("git -C /repo rev-parse --short HEAD")[1].strip()
+    ran.append("fresh worktree of /repo HEAD %s + git apply patch.diff -> rc %d" % (meta["repo_head"], rc))
+    if rc != 0:
+        print("PATCH DOES NOT APPLY:", o)
     # (1) pinned tests
     present = [t for t in TESTS if os.path.exists(os.path.join(wt, t))]
     cmd = "/venv/bin/python -m pytest -q -p no:cacheprovider " + " ".join(present)
@@ -102,11 +113,11 @@ def main():
     with open(os.path.join(dest, "meta.json"), "w") as f:
         json.dump(meta, f, indent=1)
     print(json.dumps({k: meta[k] for k in meta if k not in ("needs_to_manifest", "demo_seeded_output_tail")}, indent=1))
+    sh("git -C /repo worktree remove --force %s" % wt)
+    shutil.rmtree(wt, ignore_errors=True)
+    sh("git -C /repo worktree prune")
     if not keep:
-        sh("git -C /repo worktree remove --force %s" % wt)
         shutil.rmtree(out, ignore_errors=True)
-        shutil.rmtree(wt, ignore_errors=True)
-        sh("git -C /repo worktree prune")
 
 
 main()
